@@ -58,7 +58,7 @@ def runDirs (j : Json) : Except String Json := do
 /-! ### pipe -/
 open DL.Pipe in
 def parseDir (j : Json) : Except String Dir := do
-  pure { start := ← getNat j "s", line := ← getNat j "l", codes := (← getStrList j "codes").map (·, false) }
+  pure { start := ← getNat j "s", line := ← getNat j "l", codes := ← getStrList j "codes" }
 
 open DL.Pipe in
 def parseDiag (j : Json) : Except String Diag := do
